@@ -1159,6 +1159,14 @@ class Table(Vector):
 	def __rpow__(self, other):
 		return self._table_elementwise_operation(other, _reflected(operator.pow), '__rpow__', '**')
 	
+	def bit_lshift(self, other):
+		"""Bitwise left shift of every column (the '<<' operator is concatenation); column names are kept as for t * 2."""
+		return self._table_elementwise_operation(other, Vector.bit_lshift, 'bit_lshift', '<<')
+
+	def bit_rshift(self, other):
+		"""Bitwise right shift of every column (the '>>' operator adds columns); column names are kept as for t // 2."""
+		return self._table_elementwise_operation(other, Vector.bit_rshift, 'bit_rshift', '>>')
+
 	def _table_unary_operation(self, op_func):
 		"""Apply a unary operator to every column (each result keeps its column's name)."""
 		return Table(tuple(op_func(col) for col in self.cols()))
